@@ -251,20 +251,47 @@ impl Qcow2Header {
             .with_fixint_encoding()
             .with_big_endian();
 
+        if header_buf.len() < size_of::<Qcow2RawHeader>() {
+            return Err("header buffer is too small".into());
+        }
+
         let mut header: Qcow2RawHeader =
             bincode.deserialize(&header_buf[0..size_of::<Qcow2RawHeader>()])?;
         if header.magic != Self::QCOW2_MAGIC {
             return Err("Not a qcow2 file".into());
         }
 
-        if header.version < 2 {
+        if header.version < 2 || header.version > 3 {
             let v = header.version;
             return Err(format!("qcow2 v{v} is not supported").into());
         }
 
-        // refcount_order is always 4 for version 2
+        // a version 2 header ends after 72 bytes: the version 3 fields are
+        // not present (the bytes belong to the header extensions), the
+        // refcount_order is always 4 and the header length always 72
         if header.version == 2 {
+            header.incompatible_features = 0;
+            header.compatible_features = 0;
+            header.autoclear_features = 0;
             header.refcount_order = 4;
+            header.header_length = 72;
+            header.compression_type = 0;
+        }
+
+        if header.crypt_method != 0 {
+            let m = header.crypt_method;
+            return Err(format!("qcow2 encryption method {m} is not supported").into());
+        }
+
+        if header.refcount_order > 6 {
+            let o = header.refcount_order;
+            return Err(format!("qcow2 refcount_order {o} is invalid").into());
+        }
+
+        // the compression type field exists only in headers longer than 104 bytes
+        if header.header_length > 104 && header.compression_type != 0 {
+            let t = header.compression_type;
+            return Err(format!("qcow2 compression type {t} is not supported").into());
         }
 
         let cluster_bits = header.cluster_bits;
@@ -685,6 +712,10 @@ impl Qcow2HeaderExtension {
                 Qcow2HeaderExtensionType::FeatureNameTable => {
                     let mut feats = HashMap::new();
                     for feat in data.chunks(48) {
+                        // a truncated trailing entry has no name
+                        if feat.len() < 2 {
+                            continue;
+                        }
                         let feat_type: Qcow2FeatureType = match feat[0].try_into() {
                             Ok(ft) => ft,
                             Err(_) => continue, // skip unrecognized entries
